@@ -417,7 +417,24 @@ func (a Int) M__imul__(other Object) (Object, error) {
 	return a.M__mul__(other)
 }
 
+// trueDiv returns a / b as a Float, correctly rounded
+func (a Int) trueDiv(b Int) (Object, error) {
+	const maxExact = 1 << float64precision
+	if b != 0 && -maxExact <= a && a <= maxExact && -maxExact <= b && b <= maxExact {
+		// Both conversions are exact so the division rounds only once
+		return Float(a) / Float(b), nil
+	}
+	return (*BigInt)(big.NewInt(int64(a))).trueDiv((*BigInt)(big.NewInt(int64(b))))
+}
+
 func (a Int) M__truediv__(other Object) (Object, error) {
+	if b, ok := convertToInt(other); ok {
+		return a.trueDiv(b)
+	}
+	if _, ok := other.(*BigInt); ok {
+		// done exactly by the reflected method of BigInt
+		return NotImplemented, nil
+	}
 	b, err := MakeFloat(other)
 	if err != nil {
 		return nil, err
@@ -431,6 +448,13 @@ func (a Int) M__truediv__(other Object) (Object, error) {
 }
 
 func (a Int) M__rtruediv__(other Object) (Object, error) {
+	if b, ok := convertToInt(other); ok {
+		return b.trueDiv(a)
+	}
+	if _, ok := other.(*BigInt); ok {
+		// done exactly by the reflected method of BigInt
+		return NotImplemented, nil
+	}
 	b, err := MakeFloat(other)
 	if err != nil {
 		return nil, err
